@@ -39,6 +39,9 @@ var (
 )
 
 func init() {
+	// the repository runs Lua scripts under a REAL one-second timer; a worker starved of CPU for a second inside a
+	// script run would see it fail. Not a behaviour this engine studies: timers cannot fire during a run.
+	time.VerifTimerStretch = 100000
 	time.VerifNowHook = func() time.Time {
 		clockMu.Lock()
 		defer clockMu.Unlock()
